@@ -73,8 +73,18 @@ def gen(rng, tier):
         hi = lo + rng.randint(1, 3)
         op = rng.choice(['until_b', 'until_b', 'eventually_b', 'always_b'])
         core_ = [op, lo, hi, pr(), pr()] if op == 'until_b' else [op, lo, hi, pr()]
-        r_ = rng.random()
-        ast = core_ if r_ < 0.5 else (['not', core_] if r_ < 0.7 else [rng.choice(['and', 'or', 'implies']), core_, pr()])
+        if rng.random() < 0.3:
+            # ... below a bounded PAST operator whose window starts in the past (lower bound > 0), beside a sibling with another
+            # look-ahead: the delays the pastifier gives to the two operands must match the horizons it computed
+            a_ = rng.randint(1, 2)
+            pop = rng.choice(['once_b', 'historically_b'])
+            core_ = [pop, a_, a_ + rng.randint(0, 2), core_] if op != 'until_b' or rng.random() < 0.5 else ['since_b', a_, a_ + rng.randint(0, 2), pr(), core_]
+            ast = [rng.choice(['and', 'or', 'implies']), core_, pr()] if rng.random() < 0.8 else core_
+            if rng.random() < 0.5 and ast is not core_:
+                ast = [ast[0], ast[2], ast[1]]
+        else:
+            r_ = rng.random()
+            ast = core_ if r_ < 0.5 else (['not', core_] if r_ < 0.7 else [rng.choice(['and', 'or', 'implies']), core_, pr()])
         pvc = True
     modular = None
     if (not dense) and mode == 'on' and rng.random() < 0.15:
